@@ -414,6 +414,7 @@ func Round3Generic(c *Ctx, id string) {
 		c16Round3(c)
 		decidedConditions(c, "decided-conditions", modPath("graphql/introspection"))
 	case "C01":
+		errorTestedBeforeValue(c, "error-tested-before-value", true, pkgGraphql, pkgExecutor)
 		c08FloatGuard(c)
 		genRound3(c, "field-directives")
 		syntaxAgreement(c, "probe-naming", "probe-namingfn")
@@ -472,6 +473,7 @@ func Round3Generic(c *Ctx, id string) {
 		genRound3(c, "input-null", "arg-absent", "args-ctx")
 		c07PoolReset(c) // variables of an earlier request must not reach this one's coercion
 	case "C04":
+		errorTestedBeforeValue(c, "error-tested-before-value", true, pkgGraphql, pkgExecutor, pkgTransport)
 		recoverComparedWithNil(c, "recover-compared-with-nil", true, pkgGraphql, pkgTransport, pkgExecutor, pkgHandler)
 		noSharedErrorValues(c)
 		c01OneError(c)
